@@ -127,7 +127,7 @@ fn exact_extract(rep: &mut Report) {
 }
 
 fn float_build<T: Tier + Dom<M = Sh>>(rep: &mut Report) {
-    let n = rep.pick(11, 21);
+    let n = rep.pick(11, 45);
     let mut grid: Vec<f64> = (0..n).map(|j| -3.3 + 6.6 * j as f64 / (n - 1) as f64).collect();
     // angles of more than a half and more than a full turn: "for all angles", and the half-angle formulas of the
     // quaternion change sign there
@@ -175,8 +175,14 @@ fn mat_of_q(q: [f64; 4]) -> [[f64; 3]; 3] {
 
 fn float_extract<T: Tier + Dom<M = Sh>>(rep: &mut Report) {
     // quaternions from Euler grids with prescribed sin(y), plus the rational unit quaternions
-    let sines: Vec<f64> = [0.0, 1e-6, 3e-3, 0.5, 0.99, 0.9979, 0.99799, 0.997998, 0.998002, 0.99801, 0.9981, 0.999, 1.0].iter().flat_map(|s| [*s, -*s]).skip(1).collect();
-    let nxz = rep.pick(9, 21);
+    let mut sines: Vec<f64> = [0.0, 1e-6, 3e-3, 0.5, 0.99, 0.9979, 0.99799, 0.997998, 0.998002, 0.99801, 0.9981, 0.999, 1.0].iter().flat_map(|s| [*s, -*s]).skip(1).collect();
+    if rep.thorough() {
+        // every hundredth of sin(y) (a band between two of the hand-picked values), and a ladder towards the threshold
+        // from both sides
+        sines.extend((1..100).flat_map(|j| [j as f64 * 0.01 + 0.0037, -(j as f64 * 0.01 + 0.0037)]));
+        sines.extend((3..18).flat_map(|k| { let d = 0.5f64.powi(k); [0.998 - d, 0.998 + d * 0.25, -(0.998 - d), -(0.998 + d * 0.25)] }).filter(|s| s.abs() <= 1.0));
+    }
+    let nxz = rep.pick(9, 41);
     let mut xz: Vec<f64> = (0..nxz).map(|j| -3.0 + 6.0 * j as f64 / (nxz - 1) as f64).collect();
     // small rotations (a "nearly the identity" short cut, a first-order formula)
     xz.extend([5e-3, -1e-4, 1e-7]);
@@ -186,7 +192,7 @@ fn float_extract<T: Tier + Dom<M = Sh>>(rep: &mut Report) {
     rep.cases(
         "extract/native",
         T::NAME,
-        &format!("sin(y) in {:?} x {nxz}x{nxz} values of x,z; plus {} rational unit quaternions", sines, uq.len()),
+        &format!("{} values of sin(y) ({:?}{}) x {nxz}x{nxz} values of x,z; plus {} rational unit quaternions", sines.len(), &sines[..25], if sines.len() > 25 { ", every hundredth +0.0037 both signs, 0.998 -+ 2^-k for k = 3..17" } else { "" }, uq.len()),
         n1 + uq.len(),
         Guard::states(100).distinct(100).need("general", 50).need("cone+", 5).need("cone-", 5),
         |i, ctx| {
